@@ -137,17 +137,43 @@ def run_naction(rng, policy, mid, ctx, outcome, n=3, split='mixed'):
     return finish(tr + rsp_events(a), a), extra
 
 
-def run_nevent(rng, policy, mid, ctx, outcome, n=2):
+def run_nevent(rng, policy, mid, ctx, outcome, n=2, shape='success'):
+    """shape: which lists the report carries: 'success' (Referenced SOP Sequence only), 'failure' (Failed SOP Sequence
+    only), 'mixed'."""
     ae = S.ScriptAE()
     ae.script['commit_rsp'] = exceptions.EventHandlingError('x') if outcome == 'EHE' else None
     a = S.make_association(ae, policy)
-    ds = commit_dataset(rng, n)
-    msg = S.decode_message(S.request_bytes(0x0100, mid, COMMIT, COMMIT_INST, extra=[(cmdset.TAG_EVENT_TYPE, cmdset.us(1))]), enc(ds), ctx)
+    ds = pydicom.Dataset()
+    ds.TransactionUID = '1.2.3.777.%d' % rng.randint(1, 9999)
+
+    def refs(k, failed):
+        seq = []
+        for i in range(k):
+            r = pydicom.Dataset()
+            r.ReferencedSOPClassUID = SR
+            r.ReferencedSOPInstanceUID = '1.2.3.9.%d' % i
+            if failed:
+                r.FailureReason = 0x0112
+            seq.append(r)
+        return pydicom.Sequence(seq)
+    if shape in ('success', 'mixed'):
+        ds.ReferencedSOPSequence = refs(n, False)
+    if shape in ('failure', 'mixed'):
+        ds.FailedSOPSequence = refs(n, True)
+    msg = S.decode_message(S.request_bytes(0x0100, mid, COMMIT, COMMIT_INST, extra=[(cmdset.TAG_EVENT_TYPE, cmdset.us(2 if shape != 'success' else 1))]), enc(ds), ctx)
     tr = [{'ev': 'Req', 'svc': 'nevent', 'req': {'type': 0x0100, 'ctx': ctx, 'mid': mid, 'cls': COMMIT, 'inst': COMMIT_INST}},
           {'ev': 'Handler', 'status': DOCUMENTED_FAILURE['nevent'] if outcome == 'EHE' else 0}]
-    S.sopclass.StorageCommitment.n_event_report(a, S.ctx_def(ctx, COMMIT), msg)
+    extra = {}
+    try:
+        S.sopclass.StorageCommitment.n_event_report(a, S.ctx_def(ctx, COMMIT), msg)
+    except Exception as exc:      # noqa
+        extra['raised'] = 'n_event_report raised %s: %s (report shape %s)' % (type(exc).__name__, exc, shape)
     a.dul.drain()
-    return finish(tr + rsp_events(a), a)
+    if outcome != 'EHE' and not extra:
+        got = [c for c in ae.calls if c[0] == 'commit_rsp']
+        if len(got) != 1 or len(got[0][1][1]) != (n if shape != 'failure' else 0) or len(got[0][1][2]) != (n if shape != 'success' else 0):
+            extra['handler_args'] = 'on_commitment_response did not get the lists of the report'
+    return finish(tr + rsp_events(a), a), extra
 
 
 # ------------------------------------------------------------------ C-FIND / worklist
